@@ -226,7 +226,9 @@ def term_arrays(t):
             out += [("[%d]." % i + n, a) for n, a in term_arrays(x)]
         return out
     if hasattr(t, "tocsr"):
-        return [("data", t.data), ("indices", t.indices), ("indptr", t.indptr)]
+        # csr / csc: data, indices, indptr; coo: data, row, col
+        return [(n, getattr(t, n)) for n in ("data", "indices", "indptr", "row", "col")
+                if isinstance(getattr(t, n, None), np.ndarray)]
     return [("arr", np.asarray(t))]
 
 
